@@ -25,7 +25,16 @@
 (*                   cert : "valid"|"selfsigned"|"wrongname",             *)
 (*                   stsMatch : BOOLEAN,                                  *)
 (*                   tlsa : "insecure"|"none"|"ee_match"|"ta_match"|      *)
-(*                          "mismatch"|"unusable"|"servfail"])]           *)
+(*                          "mismatch"|"unusable"|"servfail",             *)
+(*                   cn : "no"|"sec"|"half"|"insec", tlsaC : as tlsa])]   *)
+(*        tlsa is the outcome of the TLSA lookup under the MX name        *)
+(*        ("insecure": the host's address records / the TLSA RRset are    *)
+(*        not DNSSEC-authenticated; "none": authenticated denial).  cn    *)
+(*        says whether the MX name is a CNAME: "sec" the whole chain to   *)
+(*        the address records is authenticated, "half" only the CNAME     *)
+(*        record itself is, "insec" nothing is; tlsaC is the outcome of   *)
+(*        the lookup under the canonical name.  EffTLSA is the discovery  *)
+(*        rule of RFC 7672 section 2.2.2.                                  *)
 (* msg  = [reqtls, tlsno, quar : BOOLEAN]                                 *)
 (* conn = [mx : index, tls : "none"|"enc-unauth"|"enc-auth", cert]        *)
 (*        "enc-auth": handshake completed on a certificate that is valid  *)
@@ -42,6 +51,16 @@ InForce(cfg, m) == IF m.tlsno /\ cfg.override THEN {} ELSE cfg.pols
 Encrypted(f) == f.tls \in {"enc-unauth", "enc-auth"}
 PKIXAuth(f)  == f.tls = "enc-auth"
 
+(* which TLSA outcome governs the MX (RFC 7672 2.2.2): records at the canonical   *)
+(* name when that RRset is authenticated and non-empty, else the original name;   *)
+(* a lookup failure at the name being consulted is a discovery failure            *)
+EffTLSA(f) ==
+  CASE f.cn = "no"    -> f.tlsa
+    [] f.cn = "insec" -> "insecure"
+    [] OTHER -> IF f.tlsaC = "servfail" THEN "servfail"
+                ELSE IF f.tlsaC \notin {"insecure", "none"} THEN f.tlsaC
+                ELSE f.tlsa
+
 UsableTLSA(t) == t \in {"ee_match", "ta_match", "mismatch"}
 (* DANE-EE ignores names and PKIX; DANE-TA needs a chain to the asserted  *)
 (* trust anchor AND the right name (RFC 7672 3.1.1 / 3.1.2)               *)
@@ -49,7 +68,7 @@ DaneMatch(t, cert) == t = "ee_match" \/ (t = "ta_match" /\ cert = "valid")
 
 TLSAuth(cfg, P, f) ==
   \/ PKIXAuth(f)
-  \/ "dane" \in P /\ Encrypted(f) /\ DaneMatch(cfg.mx[f.mx].tlsa, f.cert)
+  \/ "dane" \in P /\ Encrypted(f) /\ DaneMatch(EffTLSA(cfg.mx[f.mx]), f.cert)
 
 (* documented security levels (docs/seclevels.md) *)
 TLSLevelOf(cfg, P, f) == IF TLSAuth(cfg, P, f) THEN 2 ELSE IF Encrypted(f) THEN 1 ELSE 0
@@ -61,7 +80,7 @@ MXLevelOf(cfg, P, i) ==
 (* the clauses of the statement, one name each *)
 Clauses(cfg, m, f) ==
   LET P == InForce(cfg, m)
-      t == cfg.mx[f.mx].tlsa IN
+      t == EffTLSA(cfg.mx[f.mx]) IN
   [ Quarantined |-> ~m.quar,
     MTASTS      |-> ("mtasts" \in P /\ cfg.sts = "enforce") => (cfg.mx[f.mx].stsMatch /\ PKIXAuth(f)),
     DANE        |-> ("dane" \in P /\ UsableTLSA(t)) => (Encrypted(f) /\ DaneMatch(t, f.cert)),
@@ -80,7 +99,7 @@ DiscoveryFailure(cfg, m) ==
   /\ \/ cfg.dns = "servfail"
      \/ /\ "dane" \in P
         /\ \A i \in 1..Len(cfg.mx) :
-             /\ cfg.mx[i].tlsa = "servfail"
+             /\ EffTLSA(cfg.mx[i]) = "servfail"
              /\ ~("mtasts" \in P /\ cfg.sts = "enforce" /\ ~cfg.mx[i].stsMatch)
 
 ObsInit == [msg |-> NoMsg, n |-> 0, viol |-> {}]
